@@ -14,6 +14,8 @@
 //	   (each with its own key, allow-list and user) register, close, drop and re-register it, with PRNG delays at
 //	   the registration hooks: whoever is reached (owner-side nonce, visitor-side ident) must hold the key and an
 //	   allowed user of exactly the generation that was reached.
+//	D. forced hand-over (forced.go): an admitted NAT-hole request is parked at the controller's hook between admission
+//	   and hand-over while the name changes hands (other owner, user, key, allow-list): the later owner must not get it.
 //	C. real clients (real.go): real frpc owner + real frpc visitors (stcp and sudp) for the 16 combinations of
 //	   visitor / proxy encryption and compression (stream / datagram monitor), and real visitors with a wrong
 //	   key or a user outside the allow-list whose backends must never be contacted.
@@ -98,7 +100,7 @@ var sidOrigin sync.Map
 
 func main() {
 	run = h.NewRun(prop, "exploration")
-	run.Rule = "message cases: PRNG-generated visitor messages (kind x target-name variant x signature variant x timestamp variant x run-id / sender variant x declared enc/comp) against 2-4 secret proxies with generated keys and allow-lists, interleaved with closures and re-registrations; distinct = distinct (kind, proxy type, name variant, key variant, ts variant, run-id variant, allow-list shape, user relation, model verdict); order cases are distinct by (type, generations, visitor credential vector, interleaving signature); real-client cases by (server, proxy type, enc/comp combination, visitor kind)"
+	run.Rule = "message cases: PRNG-generated visitor messages (kind x target-name variant x signature variant x timestamp variant x run-id / sender variant x declared enc/comp) against 2-4 secret proxies with generated keys and allow-lists, interleaved with closures and re-registrations; distinct = distinct (kind, proxy type, name variant, key variant, ts variant, run-id variant, allow-list shape, user relation, model verdict); order cases are distinct by (type, generations, visitor credential vector, interleaving signature); real-client cases by (server, proxy type, enc/comp combination, visitor kind); forced hand-over cases by (server, allow-list shapes of both generations, how generation 1 ends)"
 	run.Assumptions = []string{
 		"the visitor's authenticated user is the login user of the session named by run_id (stream visitors; empty without run_id) or of the control session that sent the NAT-hole message; an unknown run_id authenticates nobody",
 		"user names are arbitrary strings except the literal \"*\" (an owner who logs in as \"*\" with an empty allow-list is not generated)",
@@ -122,8 +124,16 @@ func main() {
 	nMsg := run.N(400, 4000)
 	nOrder := run.N(150, 1500)
 	nReal := realCaseCount()
+	nForced := run.N(12, 72)
 	total := nMsg + nOrder + nReal
-	run.Parallel(total, 12, func(c *h.Case) {
+	// the forced hand-over cases wait for the controller's own 10 s time-out: they run beside the other cases
+	var fwg sync.WaitGroup
+	fwg.Add(1)
+	go func() {
+		defer fwg.Done()
+		run.ParallelRange(total, nForced, 6, forcedCase)
+	}()
+	run.ParallelRange(0, total, 12, func(c *h.Case) {
 		switch {
 		case c.Idx < nMsg:
 			msgCase(c)
@@ -133,7 +143,8 @@ func main() {
 			realCase(c, c.Idx-nMsg-nOrder)
 		}
 	})
-	if run.OnlyCase < 0 || run.OnlyCase >= nMsg+nOrder {
+	fwg.Wait()
+	if run.OnlyCase < 0 || (run.OnlyCase >= nMsg+nOrder && run.OnlyCase < total) {
 		realFinal()
 	}
 	finalLedger()
